@@ -128,8 +128,20 @@ impl Report {
         }
     }
 
+    /// Records an alarm. To bound memory only the first `ALARM_CAP` alarms of each class are
+    /// kept (all of them are counted).
     pub fn alarm(&self, a: Alarm) {
-        self.alarms.lock().unwrap().push(a);
+        const ALARM_CAP: u64 = 5000;
+        let class = a.class.clone().unwrap_or_else(|| "<unclassified>".to_string());
+        let n = {
+            let mut c = self.counters.lock().unwrap();
+            let e = c.entry(format!("alarms_raised[{}]", class)).or_insert(0);
+            *e += 1;
+            *e
+        };
+        if n <= ALARM_CAP {
+            self.alarms.lock().unwrap().push(a);
+        }
     }
 
     pub fn add(&self, key: &str, n: u64) {
@@ -185,11 +197,12 @@ impl Report {
                 _ => violations.push(a),
             }
         }
+        let raised = |class: &str| -> u64 { *self.counters.lock().unwrap().get(&format!("alarms_raised[{}]", class)).unwrap_or(&0) };
         for (class, (n, example)) in &known {
             let what = open.iter().find(|f| &f.class == class).map(|f| f.what.clone()).unwrap_or_default();
             println!(
                 "KNOWN-FINDING: property={} class={} {} [{} case(s) in this run; e.g. {}]",
-                self.prop, class, what, n, example
+                self.prop, class, what, raised(class).max(*n), example
             );
         }
         let replay_dir = PathBuf::from(VERIF_DIR).join("evidence").join("replays");
